@@ -1,8 +1,8 @@
 SPECIFICATION Spec
 CONSTANTS
-  Fams = {"single", "disjoint"}
-  MaxRoutes = 3
-  PerClass = 4
+  Fams = {"curved", "cross4"}
+  MaxRoutes = 2
+  PerClass = 2
   DEV_RemoveNoRebuild = FALSE
   DEV_MoveNoRebuild = FALSE
   DEV_CopyMisMaps = FALSE
